@@ -174,6 +174,9 @@ func genDerItem() *rapid.Generator[DerItem] {
 		if rapid.IntRange(0, 9).Draw(t, "trk") == 0 {
 			it.Trail = rapid.SampledFrom([]string{"\x00", "\x0c\x01x", "\x05\x00", "x"}).Draw(t, "tr")
 		}
+		if rapid.IntRange(0, 11).Draw(t, "nvk") == 0 {
+			it.NoValue, it.Val = true, ""
+		}
 		return it
 	})
 }
@@ -181,7 +184,7 @@ func genDerItem() *rapid.Generator[DerItem] {
 func validUTF8(s string) bool { return strings.ToValidUTF8(s, "") == s }
 
 const c20DerRule = "subjectAltName extensions built from a DER grammar (dNSName, iPAddress, registeredID, otherName with the receptor OID / another / a prefix / an extension of it, " +
-	"inner value UTF8/Printable/IA5/INTEGER/OCTET STRING/NULL/SEQUENCE, wrong classes, primitive flags, other explicit tag numbers, non-minimal lengths, trailing bytes) and 0-4 byte mutations of them; " +
+	"inner value UTF8/Printable/IA5/INTEGER/OCTET STRING/NULL/SEQUENCE, wrong classes, primitive flags, other explicit tag numbers, non-minimal lengths, trailing bytes, missing value element) and 0-4 byte mutations of them; " +
 	"oracle: unmutated = by-construction classification of each item (must be returned / must not contribute / lenient); mutated = strict independent DER reader, compared only when it accepts the bytes; " +
 	"non-trivial = >= 2 items with a well-formed receptor name (unmutated) or a mutated extension the strict reader accepts with >= 1 name; distinct by canonical JSON"
 
